@@ -95,6 +95,9 @@ def main():
                 ctx.violation('hang:%s:%s' % (fam, who), '%s under %s on %s does not terminate' % (pr['name'], tag, rt), files); continue
             if rxc.startswith('compile-') or 'watchdog' in rxc: continue       # no reference behaviour
             if xc.startswith('compile-'):
+                if b'Program fault (arithmetic exception)' in (p.out + p.err):
+                    # recorded finding: the allocator dies with SIGFPE in mxmemMerge once the inliner has blown a program up to a heap of ~770 MB
+                    ctx.violation('no-build:allocator-sigfpe-at-huge-heap', '%s under %s: %s' % (pr['name'], tag, (p.out + p.err)[-300:].decode(errors='replace')), files); continue
                 ctx.violation('no-build:%s:%s' % (fam, who), '%s under %s: %s' % (pr['name'], tag, (p.out + p.err)[-300:].decode(errors='replace')), files); continue
             rf = rxc == 'signal' or bool(fault_text(rp) and 'Unhandled' not in fault_text(rp))
             of = xc == 'signal' or bool(fault_text(p) and 'Unhandled' not in fault_text(p))
